@@ -354,3 +354,13 @@ def get_protocol(config, line, rest=b"", tls=False):
     h = Handler(req, CLIENT, server)
     return ProtocolMultiplexer.getProtocol(
         line.decode(errors="surrogateescape"), server, h, h.rfile, h.wfile, config)
+
+
+def snapshot_globals():
+    return (HandlerMultiplexer.handlers, HandlerMultiplexer.rootpath, hbase.rootpath,
+            gopherentry.mapping, gopherentry.eaexts, hUMN.extstrip)
+
+
+def restore_globals(s):
+    (HandlerMultiplexer.handlers, HandlerMultiplexer.rootpath, hbase.rootpath,
+     gopherentry.mapping, gopherentry.eaexts, hUMN.extstrip) = s
